@@ -1402,15 +1402,25 @@ impl Error {
 
     #[cold]
     #[inline(never)]
+    #[cfg_attr(not(feature = "verif_hooks"), allow(dead_code))]
     pub(crate) fn from_scan_error(err: ScanError) -> Self {
+        Self::from_scan_error_in(err, None)
+    }
+
+    /// [`Error::from_scan_error`] for an error met in the in-memory input `input`: a mark taken
+    /// after the end of an input without final line break is reported on the last line
+    /// (see [`crate::location::mark_line_and_column`]).
+    #[cold]
+    #[inline(never)]
+    pub(crate) fn from_scan_error_in(err: ScanError, input: Option<&str>) -> Self {
         use crate::location::SpanIndex;
         let mark = err.marker();
-        let location =
-            Location::new(mark.line(), mark.col() + 1).with_span(crate::location::Span {
-                offset: mark.index() as SpanIndex,
-                len: 1,
-                byte_info: (0, 0),
-            });
+        let (line, column) = crate::location::mark_line_and_column(mark, input);
+        let location = Location::new(line, column).with_span(crate::location::Span {
+            offset: mark.index() as SpanIndex,
+            len: 1,
+            byte_info: (0, 0),
+        });
 
         // `saphyr_parser` reports missing aliases/anchors as a `ScanError` with a textual
         // message (e.g. "unknown anchor"). To keep our formatter overrides working for the
